@@ -552,11 +552,11 @@ Qed.
 
 Lemma triple_two_sew3 E n ks l r : triple E (P2d n l r) (two_sew3 n ks l r) (fun _ => wf3 n) anyf.
 Proof.
-  unfold two_sew3. tdata3 b1l. tdata3 b1r. tdata3 el. tdata3 er. destruct (b1l =? 0), (b1r =? 0).
-  - tcore3 triple_two_link3. tdata3 e. tlast3.
-  - tdata3 v1. tdata3 v2. tcore3 triple_two_link3. tdata3 v3. tdata3 e. tdata3. tdata3. tlast3.
-  - tdata3 v1. tdata3 v2. tcore3 triple_two_link3. tdata3 v3. tdata3 e. tdata3. tdata3. tlast3.
-  - tdata3 v1. tdata3 v2. tdata3 v3. tdata3 v4. tdata3 c1. tdata3 c2. tdata3 c3. tdata3 c4.
+  unfold two_sew3. tdata3 b1l. tdata3 b1r. destruct (b1l =? 0), (b1r =? 0).
+  - tdata3 el. tdata3 er. tcore3 triple_two_link3. tdata3 e. tlast3.
+  - tdata3 el. tdata3 er. tdata3 v1. tdata3 v2. tcore3 triple_two_link3. tdata3 v3. tdata3 e. tdata3. tdata3. tlast3.
+  - tdata3 el. tdata3 er. tdata3 v1. tdata3 v2. tcore3 triple_two_link3. tdata3 v3. tdata3 e. tdata3. tdata3. tlast3.
+  - tdata3 el. tdata3 er. tdata3 v1. tdata3 v2. tdata3 v3. tdata3 v4. tdata3 c1. tdata3 c2. tdata3 c3. tdata3 c4.
     eapply triple_bind.
     { instantiate (1 := fun _ => P2d n l r).
       destruct c1 as [a|], c2 as [b|], c3 as [c0|], c4 as [d|]; try (apply triple_ret'; unfold anyf; cbn; tauto).
@@ -569,11 +569,11 @@ Qed.
 
 Lemma triple_two_unsew3 E n ks l : triple E (P1 n l) (two_unsew3 n ks l) (fun _ => wf3 n) anyf.
 Proof.
-  unfold two_unsew3. tdata3 r. tdata3 b1l. tdata3 b1r. tdata3 e. destruct (b1l =? 0), (b1r =? 0).
-  - tcore3 triple_two_unlink3. tdata3 e1. tdata3 e2. tlast3.
-  - tdata3 v1. tcore3 triple_two_unlink3. tdata3 e1. tdata3 e2. tdata3. tdata3 a. tdata3 b. tdata3. tlast3.
-  - tdata3 v1. tcore3 triple_two_unlink3. tdata3 e1. tdata3 e2. tdata3. tdata3 a. tdata3 b. tdata3. tlast3.
-  - tdata3 v1. tdata3 v2. tcore3 triple_two_unlink3. tdata3 e1. tdata3 e2. tdata3.
+  unfold two_unsew3. tdata3 r. tdata3 b1l. tdata3 b1r. destruct (b1l =? 0), (b1r =? 0).
+  - tdata3 e. tcore3 triple_two_unlink3. tdata3 e1. tdata3 e2. tlast3.
+  - tdata3 e. tdata3 v1. tcore3 triple_two_unlink3. tdata3 e1. tdata3 e2. tdata3. tdata3 a. tdata3 b. tdata3. tlast3.
+  - tdata3 e. tdata3 v1. tcore3 triple_two_unlink3. tdata3 e1. tdata3 e2. tdata3. tdata3 a. tdata3 b. tdata3. tlast3.
+  - tdata3 e. tdata3 v1. tdata3 v2. tcore3 triple_two_unlink3. tdata3 e1. tdata3 e2. tdata3.
     tdata3 a. tdata3 b. tdata3 c0. tdata3 d. tdata3. tdata3. tdata3. tlast3.
 Qed.
 
